@@ -1,1 +1,2 @@
 // shared helpers for vh_fmt bins
+pub mod fmtgen;
